@@ -461,9 +461,17 @@ func (s *Syncer) handleRPC(id types.Specifier, stream *gateway.Stream, origin *P
 		}
 		if r.Block.ParentID != s.cm.Tip().ID {
 			// block extends a sidechain, which peer (if honest) believes to be the
-			// heaviest chain. Its ID cannot be derived here: the commitment
-			// covers the parent state, and the state stored for a block that
-			// has not been applied is derived from its header only
+			// heaviest chain. Its ID can only be derived if the parent is on
+			// our best chain: the commitment covers the parent state, and the
+			// state stored for a block that has not been applied is derived
+			// from its header only
+			if _, _, err := s.cm.Headers(cs.Index, 0); err == nil {
+				if bid := r.Block.ID(cs); bid.CmpWork(cs.PoWTarget()) < 0 {
+					return s.ban(origin, errors.New("peer sent v2 outline with insufficient work"))
+				} else if _, ok := s.cm.State(bid); ok {
+					return nil // already seen
+				}
+			}
 			s.resync(origin, "peer relayed a v2 outline that does not attach to our tip")
 			return nil
 		}
